@@ -61,6 +61,8 @@ pub fn dispatch(ctx: &Ctx) -> i32 {
         "C15" | "C16" | "C17" | "C18" | "C19" => c15_c19::run(ctx),
         "C20" => c20_wrappers::run(ctx),
         "C21" => c21_collision::run(ctx),
+        #[cfg(feature = "optimism")]
+        "C22" if ctx.lane == "op" => c33_optimism::run_c22_clause(ctx),
         "C22" => c22_reward::run(ctx),
         "C31" => c31_reuse::run(ctx),
         "C12" => c12_stack::run(ctx),
